@@ -20,7 +20,19 @@
      shape_of axes    : the axis lengths
      wrapped shape G  : the array  idx |-> G (NumPy-wrapped idx); [vget shape flat] is the instance
                         for a flat C-order list, so every theorem below covers all arrays
-     interp1 s c v x  : peraxis_point [s] [c] (vget [length c] v) [x]      (one dimension) *)
+     interp1 s c v x  : peraxis_point [s] [c] (vget [length c] v) [x]      (one dimension)
+     cellnat c x      : min (pred (ssleft c x)) (length c - 2)   (the clamped cell as a nat)
+     at_node (s,c,j)  : the axis (s, c, nth j c 0);  n_j (s,c,j) = j
+     tensor_eval      : recursive reading of the corner sum: blend along the first axis of the
+                        tensor_eval of the remaining axes
+     mblend, lin_t    : the textbook recursive blend (unfoldings shown as Examples after T4)
+     lincomb al p     : a_1*p_1 + .. (truncating);  nodes_at axes js / node_at cvs js : the grid
+                        node with index tuple js
+     m_s m_c m_xs     : accessors of (scheme, nodes, evaluation coordinates along this axis)
+     bsearch          : lower-bound binary search (lo, hi, mid = lo + (hi-lo)/2, fuel = length)
+   The weight/edge rules, the index clamping, the normalised distance and the nearest pick are
+   not hand-written: Model.v calls Gen/InterpWeights.v, REGENERATED from discr_utils.py on every
+   run by translate/interp_weights.py, so the theorems are re-checked against the current source. *)
 From Coq Require Import ZArith QArith Reals List Bool.
 From Verif Require Import Base.Num Base.Vec C15.Syntax Gen.InterpWeights C15.Model C15.Call C15.Proofs C15.Refuted.
 Import ListNotations.
